@@ -885,7 +885,7 @@ def gen_usability_cases(seed, tier, full=False):
     # corner rejects every move away from it): one with the corner at 0 (only the absolute tolerance of
     # the `isclose` band admits a draw), one with non-zero bounds (points in the relative band)
     for fam in ('adaptive_bounded_eigenvector',):
-        for i in range(4 if not thorough else 8):
+        for i in range(2 if not thorough else 8):
             doms = {'x0': [0.0, 1.3], 'x1': [-1.1, 0.0]} if i % 2 == 0 else {'x0': [-1.5, 1.0], 'x1': [-2.0, 0.7]}
             corner = {'x0': doms['x0'][0], 'x1': doms['x1'][1]}
             c = {'family': fam, 'variant': None, 'n': 2, 'T': 30, 'start_step': 1, 'k': 1,
